@@ -23,7 +23,7 @@ CLAIMS = {
     "C10": ("Per corpus tree: for every user state, each of the four minimal-config variants (labels x =n normalisation) and kconfgen's variant reloads in a fresh instance to the same value for every option; labelled and unlabelled variants carry the same assignments in the same order.", "DESIGN.md 4/C10"),
     "C11": ("Per rename shape: every sdkconfig of up to 2 (thorough 3) lines mixing old and new names (symbolic name, form, value) loads to the same configuration as its translation to new names (inversion, 'is not set' on inverted aliases); old names never appear as unknown; the deprecated block is ignored unless requested and, when requested, its entries evaluate to the written values.", "DESIGN.md 4/C11"),
     "C12": ("Per corpus tree (and tree-version pair): symbolic pre-state, completed sync, symbolic operation, sync with symbolic crash point (before any mutating file operation or inside a write), further symbolic operation, rerun from a fresh instance: every option (and alias) whose header value differs from the last completed sync has been touched since; without crash: no untouched change, no spurious touch, repeated sync is a no-op.", "DESIGN.md 4/C12"),
-    "C13": ("Per corpus tree: all core writers and the real kconfgen main() (config, header, cmake, json, json_menus, savedefconfig) run twice touch no destination the second time, and after one symbolic operation rewrite exactly the destinations whose text changes; write_config(save_old=True) over a complete previous file (regular or symlink) with symbolic crash point never loses both copies.", "DESIGN.md 4/C13"),
+    "C13": ("Per corpus tree: all core writers and the real kconfgen main() (config, header, cmake, json, json_menus, savedefconfig) run twice touch no destination the second time, and after one symbolic operation rewrite exactly the destinations whose text changes; a save over a complete previous file (regular or symlink) through Kconfig.write_config(save_old=True), kconfgen's write_config wrapper (the server's save) and the menuconfig save, with symbolic crash point, never loses both copies.", "DESIGN.md 4/C13"),
     "C14": ("Per corpus tree x protocol version 1-3: a model client applying the initial message and the replies to 1-2 symbolic requests (set / reset / load / save, valid and invalid) holds the state a fresh server reports for the file written by save; options missing there are reported invisible.", "DESIGN.md 4/C14"),
     "C15": ("Per corpus tree: for one request of symbolic shape (every protocol key, valid and wrong-typed; every version code; visible / invisible / unknown / menu / bogus targets; values of every JSON type) from a sampled configuration, and for short sequences with bad requests first: run_server raises nothing, writes exactly one JSON line per line received and nothing else to stdout, an entry that did not take effect leaves the configuration as if it had not been sent, and an unreadable / unwritable file name in load / save is reported in `error` with configuration and session file untouched. Log messages are passed through rich markup parsing like the real console.", "DESIGN.md 4/C15"),
     "C16": ("Per corpus tree x initial file (absent, tool-written, hand-edited variants): every sequence of 2 (thorough 3) UI-level actions incl. saves and loads, driven through the real MenuConfigApp handlers on a stand-in self: whenever needs_save() is false the file equals what saving would write; right after a save or after loading a tool-written file needs_save() is false.", "DESIGN.md 4/C16"),
